@@ -47,6 +47,7 @@ class Stats:
         self.excluded = collections.Counter()
         self.worst = {}          # name -> max ratio error/tolerance
         self.fail = None         # (case, msg)
+        self.distinct_extra = 0  # cases distinct by construction (enumerations), not digested one by one
 
     def label(self, *names):
         for n in names:
@@ -67,6 +68,7 @@ class Stats:
 
     def merge(self, o):
         self.evals += o.evals
+        self.distinct_extra += getattr(o, "distinct_extra", 0)
         self.digests |= o.digests
         self.labels.update(o.labels)
         for s in o.samples:
@@ -285,7 +287,7 @@ def main(prop_id, tier, replay=None, only=None):
                         inconclusive.append("FLAKY %s: %s (replay %s passes 3x)" % (part.name, msg, path))
                     st.fail = None
                 pst.merge(st)
-            per_part[part.name] = {"evaluations": pst.evals, "distinct_nontrivial": len(pst.digests)}
+            per_part[part.name] = {"evaluations": pst.evals, "distinct_nontrivial": len(pst.digests) + pst.distinct_extra}
             total.merge(pst)
     finally:
         pool.terminate()
@@ -294,7 +296,7 @@ def main(prop_id, tier, replay=None, only=None):
     wall = time.time() - t0
     cov = {
         "evaluations": total.evals,
-        "distinct_nontrivial": len(total.digests),
+        "distinct_nontrivial": len(total.digests) + total.distinct_extra,
         "rule": getattr(mod, "RULE", ""),
         "samples": total.samples[:6],
         "classes": dict(sorted(total.labels.items())),
@@ -330,7 +332,7 @@ def main(prop_id, tier, replay=None, only=None):
                   % ("KNOWN-FINDING" if still else "KNOWN-FINDING-GONE", prop_id, e["what"], e["tag"],
                      total.excluded.get(e["tag"], 0)))
     print("%s %s seed=%d: %d cases, %d distinct non-trivial, %.1fs" %
-          (prop_id, tier, seed, total.evals, len(total.digests), wall))
+          (prop_id, tier, seed, total.evals, len(total.digests) + total.distinct_extra, wall))
     for k, v in sorted(total.worst.items()):
         print("  worst error/tolerance %-28s %.3g" % (k, v))
     for msg in inconclusive:
